@@ -486,7 +486,22 @@ def text_encodings(jwk):
             out["openssh-private"] = gen.to_pem(jwk, private=True, fmt="openssh")
         except Exception:
             pass
+        try:
+            # the line an OpenSSH CA hands back (id_*-cert.pub): "<type>-cert-v01@openssh.com AAAA..."
+            from cryptography.hazmat.primitives.serialization import SSHCertificateBuilder, SSHCertificateType
+            from cryptography.hazmat.primitives.asymmetric import ed25519
+            ca = ed25519.Ed25519PrivateKey.generate()
+            out["openssh-certificate"] = (SSHCertificateBuilder().public_key(gen.native_key(jwk, False)).serial(1).type(SSHCertificateType.USER).key_id(b"id")
+                                          .valid_principals([b"u"]).valid_after(0).valid_before(2**32).sign(ca)).public_bytes()
+        except Exception:
+            pass
     return out
+
+
+PREAMBLES = (("leading-newline", b"\n"), ("leading-space", b"  "), ("leading-crlf-tab", b"\r\n\t"), ("utf8-bom", b"\xef\xbb\xbf"),
+             ("bag-attributes-preamble", b"Bag Attributes\n    localKeyID: 01\nKey Attributes: <No Attributes>\n"), ("comment-line-preamble", b"# signing key of the api\n"),
+             ("subject-line-preamble", b"subject=/CN=example\nissuer=/CN=ca\n"), ("text-dump-preamble", b"Public-Key: (256 bit)\npub:\n    04:aa:bb\n"))
+WHITE_PREAMBLES = ("leading-newline", "leading-space", "leading-crlf-tab", "utf8-bom")
 
 
 def confusion_and_warnings(ctx, rng):
@@ -533,21 +548,24 @@ def confusion_and_warnings(ctx, rng):
                     if o.ok and not flagged:
                         ctx.violation(f"unsafe-key-text-not-flagged:{name}@{path}", f"{name} text imported as a symmetric secret through {path} raised no warning "
                                       f"(warnings seen: {[str(w.message)[:40] for w in o.warnings]})", {"encoding": name, "path": path, "as": vname})
-            # the same text with leading whitespace / a UTF-8 BOM is still PEM/SSH formatted text
-            for pre_name, pre in (("leading-newline", b"\n"), ("leading-space", b"  "), ("leading-crlf-tab", b"\r\n\t"), ("utf8-bom", b"\xef\xbb\xbf"),
-                                  ("bag-attributes-preamble", b"Bag Attributes\n    localKeyID: 01\n")):
+            # the same text with white space / a UTF-8 BOM / explanatory lines in front (openssl pkcs12 -nodes, openssl x509 -text, s_client -showcerts,
+            # a comment) is still PEM/SSH formatted key text whenever a reader of such text -- the library's own loader for that key type -- reads the key from it
+            own_class = {"RSA": j.RSAKey, "EC": j.ECKey, "OKP": j.OKPKey}[jwk["kty"]]
+            for pre_name, pre in PREAMBLES:
                 for vname, v in (("bytes", pre + text), ("str", (pre + text).decode())):
                     ctx.ev()
                     o = call(j.OctKey.import_key, v)
                     ctx.count("warning_cases")
                     flagged = any(w.category is not DeprecationWarning for w in o.warnings)
                     if o.ok and not flagged:
-                        if pre_name == "bag-attributes-preamble":
-                            ctx.open("key-text-after-a-preamble-not-flagged")
-                        else:
-                            # white space or a byte order mark in front: every PEM / SSH reader takes this text for the key it is
-                            ctx.violation(f"unsafe-key-text-not-flagged:{name}@OctKey.import_key[{pre_name}]", f"{name} text with {pre_name} in front imported as a symmetric "
-                                          f"secret raised no warning", {"encoding": name, "prefix": pre_name, "as": vname})
+                        if pre_name not in WHITE_PREAMBLES:
+                            rd = call(own_class.import_key, v)
+                            if not rd.ok:
+                                ctx.open("text-in-front-of-key-text-the-library-itself-does-not-read")
+                                continue
+                            ctx.count("preamble_texts_read_as_keys_by_the_library")
+                        ctx.violation(f"unsafe-key-text-not-flagged:{name}@OctKey.import_key[{pre_name}]", f"{name} text with {pre_name} in front imported as a symmetric "
+                                      f"secret raised no warning", {"encoding": name, "prefix": pre_name, "as": vname})
 
 
 def run_shard(ctx):
